@@ -2,7 +2,7 @@
 import os, sys, re, json, time, shutil, subprocess, tempfile, random
 import z3
 import mir2smt
-from mir2smt import INT_TYPES, tmin, tmax
+from mir2smt import INT_TYPES, WIDE_TYPES, tmin, tmax
 
 VERIF = os.path.dirname(os.path.dirname(os.path.abspath(__file__)))
 BUILD = os.path.join(VERIF, ".build")
@@ -67,7 +67,7 @@ def cvc5_check(smt2, timeout=60):
         p = subprocess.run(["cvc5", "--lang", "smt2", "--tlimit=%d" % (timeout * 1000), path], capture_output=True, text=True)
         out = (p.stdout + p.stderr).strip()
         if "(error" in out:
-            return "error"
+            return "error: " + out[:160].replace("\n", " ")
         first = out.splitlines()[0] if out else "unknown"
         return first
     finally:
@@ -110,6 +110,8 @@ def eval_encoding(fns, lut, ty, value):
     if s.check() != z3.sat:
         return None
     m = s.model()
+    if dcv == -1:
+        return str(m.eval(p.dectext, model_completion=True).as_long())
     arr = {}
     for (off, val) in p.buf_writes:
         arr[m.eval(off, model_completion=True).as_long()] = m.eval(val, model_completion=True).as_long()
@@ -135,7 +137,7 @@ def run(tier, seed):
     candidates = []   # (ty, nonzero, value, obligation name)
     cvc_budget = 400 if tier == "thorough" else 60
     for nonzero in (False, True):
-        for ty in INT_TYPES:
+        for ty in INT_TYPES + WIDE_TYPES:
             label = ("NonZero<%s>" % ty) if nonzero else ty
             try:
                 ctx, v, finals = mir2smt.encode_type(fns, lut, ty, nonzero=nonzero)
@@ -177,7 +179,7 @@ def run(tier, seed):
             res["functions"] += sorted(ctx.functions)
             ok_paths = len(finals)
             cov["per_type"][label] = {"paths_ok": ok_paths, "obligations": n_ob, "discharged": n_ok,
-                                      "feasibility_queries": ctx.feas_queries, "digits_counts": sorted(set(d for _, d in finals))}
+                                      "feasibility_queries": ctx.feas_queries, "digits_counts": sorted(set(d for _, d in finals if d >= 0))}
             if n_ob and n_ok == n_ob and ok_paths >= 1:
                 res["nontrivial"].append("e2_" + label)
             res["samples"].append({"harness": "e2:into_repr(%s)" % label, "verdict": "pass" if n_ok == n_ob else "open",
@@ -185,7 +187,7 @@ def run(tier, seed):
                                             "obligations": n_ob}, "symbolic_inputs": ["the integer (full range)"], "time_s": round(tq, 2)})
     # translator validation + replay of candidates against the real code
     vals = {}
-    for ty in INT_TYPES:
+    for ty in INT_TYPES + WIDE_TYPES:
         vals[ty] = corpus(ty, seed, 200 if tier == "thorough" else 40)
     for (ty, nz, val, name) in candidates:
         vals.setdefault(ty, []).append(val)
@@ -195,8 +197,8 @@ def run(tier, seed):
     else:
         mism = 0
         checked = 0
-        for ty in INT_TYPES:
-            sub = vals[ty] if tier == "thorough" else vals[ty][:: max(1, len(vals[ty]) // 60)]
+        for ty in INT_TYPES + WIDE_TYPES:
+            sub = vals[ty] if tier == "thorough" else vals[ty][:: max(1, len(vals[ty]) // 14)]
             for val in sub:
                 enc = eval_encoding(fns, lut, ty, val)
                 real = nat["dev"].get((ty, val), (None, None))[0]
